@@ -218,6 +218,19 @@ def shard(dtf, N, tier, pushes_list=None):
                         ex_ok = (exact_fn and ((dyadic(t) and not nondyadic_dt) or iname != "linear")) or kind == "exact"
                         if not all(close(g, x, ex_ok, 1e-5) for g, x in zip(got, exp)):
                             tally.violation(f"select:scalar:{kind}:{iname}", case, f"select({float(t)}) = {got}, reference {exp}", exp, got)
+                    # ---- default offset of select is 1 (time 0 = most recent observation)
+                    if off == 1:
+                        for t in grid:
+                            if t in scalar_res:
+                                tally.add("evaluations")
+                                try:
+                                    g0 = ring.rt.select(float(t), ifn, tolerance=float(tol), interp_kwargs=ikw).to(torch.float64).tolist()
+                                except Exception as ex:
+                                    g0 = repr(ex)
+                                if g0 != scalar_res[t]:
+                                    tally.violation("select:default-offset", {"op": "select", "dt": float(dt), "N": N, "pushes": pushes, "tol": float(tol), "time": float(t),
+                                                    "interp": iname, "mode": "scalar", "offset": "default"}, f"select without offset gives {g0}, with offset=1 {scalar_res[t]}")
+                                    break
                     # ---- tensor time: pairs (quick: a rotating partner; linear/nearest at offset 1: all pairs)
                     valid = [t for t in grid if locate(t, dt, tol, N)[0] != "invalid"]
                     allpairs = (iname in ("linear", "nearest") and off == 1) and (not quick or N <= 3)
